@@ -44,9 +44,9 @@ impl<'a> TryFrom<&'a [u8]> for SnmpV3Message<'a> {
         }
         // Version
         let (tail, v_code) = SnmpInt::from_ber(envelope.0)?;
-        let vc = v_code.into();
-        if vc != SNMP_V3 {
-            return Err(SnmpError::InvalidVersion(vc));
+        let vc: i64 = v_code.into();
+        if vc != SNMP_V3 as i64 {
+            return Err(SnmpError::InvalidVersion(vc as u8));
         }
         //
         // Parse global header
